@@ -16,6 +16,7 @@ import (
 )
 
 type Clause struct {
+	Private bool // proves: checked in the function's own VC, not assumed by callers
 	Label string
 	E     Expr
 	Src   string
@@ -56,6 +57,14 @@ type FuncContract struct {
 	GhostDefs []Clause
 	CallPres  []CallPre
 	NoCalls   []string
+	Witnesses []Witness
+}
+
+// Witness: when proving the clause "ensures @Label exists Name T :: body" in the function's own VC,
+// body is proved with Name bound to E (evaluated at the return). Callers assume the existential.
+type Witness struct {
+	Label, Name string
+	E           Expr
 }
 
 // CallPre: an assertion checked immediately before calls whose callee name contains Callee;
@@ -157,12 +166,22 @@ type Contracts struct {
 	Ghosts map[string]*GhostVar
 	Order  []string
 	Tables []*TableCheck
+	Writers []*WritersCheck
 	GlobalInvs []*GlobalInv
 	ChanInvs   []*ChanInv
 	TokChans   []string // Type.field of channels that carry the duty to complete the requests sent on them
 }
 
 // TableCheck: ground obligations over literal tables of the repository.
+// WritersCheck: every store to the field Pkg.Type.field in the module is in one of the listed functions
+// (each under contract for the listed properties): the field's invariant has no other writer.
+type WritersCheck struct {
+	Pkg   string
+	Props []string
+	Field string // Type.field
+	Funcs []string
+}
+
 type TableCheck struct {
 	Pkg   string
 	Props []string
@@ -325,6 +344,24 @@ func (cs *Contracts) LoadContractFile(path, pkg string) error {
 		case "tokchan":
 			cs.TokChans = append(cs.TokChans, strings.Fields(rest)...)
 			return nil
+		case "writers":
+			// writers props=C19 Type.field func func ...
+			fs := strings.Fields(rest)
+			wc := &WritersCheck{Pkg: pkg}
+			for _, a := range fs {
+				if strings.HasPrefix(a, "props=") {
+					wc.Props = strings.Split(a[6:], ",")
+				} else if wc.Field == "" {
+					wc.Field = a
+				} else {
+					wc.Funcs = append(wc.Funcs, a)
+				}
+			}
+			if wc.Field == "" || len(wc.Funcs) == 0 {
+				return fail("writers needs Type.field and at least one function")
+			}
+			cs.Writers = append(cs.Writers, wc)
+			return nil
 		case "table":
 			// table <kind> <name> args... ; props via following "prop" line not supported: inline "props=C14"
 			fs := strings.Fields(rest)
@@ -391,6 +428,15 @@ func (cs *Contracts) LoadContractFile(path, pkg string) error {
 				return err
 			}
 			cur.Ensures = append(cur.Ensures, c)
+		case "proves":
+			// a postcondition proved in the function's own VC (a lemma for its later postconditions)
+			// that callers do not get
+			c, err := mkClause(rest)
+			if err != nil {
+				return err
+			}
+			c.Private = true
+			cur.Ensures = append(cur.Ensures, c)
 		case "nocall":
 			cur.NoCalls = append(cur.NoCalls, strings.Fields(rest)...)
 		case "callpre":
@@ -444,6 +490,21 @@ func (cs *Contracts) LoadContractFile(path, pkg string) error {
 			cur.Transfers = append(cur.Transfers, Transfer{Callee: w2, E: e, Src: rest})
 		case "produces":
 			cur.Produces = append(cur.Produces, splitList(rest)...)
+		case "witness":
+			// witness @label name = expr
+			fs := strings.SplitN(rest, " ", 2)
+			if len(fs) < 2 || !strings.HasPrefix(fs[0], "@") {
+				return fail("witness needs @label name = expr")
+			}
+			i := strings.Index(fs[1], "=")
+			if i < 0 {
+				return fail("witness needs name = expr")
+			}
+			e, err := ParseExpr(strings.TrimSpace(fs[1][i+1:]))
+			if err != nil {
+				return fail("%v", err)
+			}
+			cur.Witnesses = append(cur.Witnesses, Witness{Label: fs[0][1:], Name: strings.TrimSpace(fs[1][:i]), E: e})
 		case "let":
 			i := strings.Index(rest, "=")
 			if i < 0 {
